@@ -241,6 +241,22 @@ pub fn run() -> Report {
             cases.push(Case { coin: "bitcoin", verify: true, txs: vec![a.clone(), b.clone()], hdr: None, n_blocks: 3, label: format!("pair#{}x{}", i, j) });
         }
     }
+    if thorough {
+        // (c') ordered pairs over the FULL shape product (not the reduced set), alternating between a coin with and a coin
+        // without merged mining and between the verify modes; the three-count product on three more coin / verify combinations
+        let full = product_shapes(&[1, 2]);
+        for (i, a) in full.iter().enumerate() {
+            for (j, b) in full.iter().enumerate() {
+                let coin = if (i + j) % 2 == 0 { "bitcoin" } else { "dogecoin" };
+                cases.push(Case { coin, verify: (i + 2 * j) % 3 != 0, txs: vec![a.clone(), b.clone()], hdr: None, n_blocks: 3, label: format!("fullpair#{}x{}", i, j) });
+            }
+        }
+        for (coin, verify) in [("bitcoin", true), ("litecoin", false), ("namecoin", true)] {
+            for (i, p) in product_shapes(&[1, 2, 3]).into_iter().enumerate() {
+                cases.push(Case { coin, verify, txs: vec![p], hdr: None, n_blocks: 4, label: format!("product3/{}#{}", coin, i) });
+            }
+        }
+    }
     // (d) one-dimension CompactSize boundary sweeps
     // (the CompactSize widths, and the powers of two with their neighbours: sizes at which chunked reads, batches and table
     // sizes of an implementation end - a count of exactly 256 or 4096 is as much "any count" as 253)
